@@ -877,3 +877,241 @@ def on_cells_only(ctx, fi, flow, ravel_call, rule: str, what: str, conv: str = '
               "cells by position it would silently give cell n the value of node n whenever the two grids have the same size", fi, ravel_call, construct=why)
 
 
+
+
+# --------------------------------------------------------------------------- facts on a path
+
+def facts(ctx: Context, fi: FuncInfo, node: ast.AST) -> set[tuple[str, bool]]:
+    """The atomic conditions known to hold (True) or not to hold (False) on every path to `node`, as text:
+    comparisons in their positive form, conjunctions / disjunctions taken apart, locals that stand for one
+    expression spelled out.  `if a and not b:` / `if not a: return` + `if b: return` / `x if a and not b else y`
+    all give {(a, True), (b, False)}."""
+    flow = ctx.flow(fi)
+    out: set[tuple[str, bool]] = set()
+    clauses: list[list[tuple[str, bool]]] = []      # each: at least one of these literals holds
+
+    def literal(t: ast.AST, pol: bool) -> Optional[tuple[str, bool]]:
+        while isinstance(t, ast.UnaryOp) and isinstance(t.op, ast.Not):
+            t, pol = t.operand, not pol
+        if isinstance(t, ast.BoolOp):
+            return None
+        if isinstance(t, ast.Compare) and len(t.ops) == 1 and type(t.ops[0]) in _POSITIVE:
+            t2 = ast.Compare(left=t.left, ops=[_POSITIVE[type(t.ops[0])]()], comparators=t.comparators)
+            ast.copy_location(t2, t)
+            t, pol = t2, not pol
+        try:
+            e = expand_locals(flow, t)
+        except Exception:
+            e = t
+        return norm_text(e), pol
+
+    def add(t: ast.AST, pol: bool) -> None:
+        while isinstance(t, ast.UnaryOp) and isinstance(t.op, ast.Not):
+            t, pol = t.operand, not pol
+        if isinstance(t, ast.BoolOp):
+            if (isinstance(t.op, ast.And) and pol) or (isinstance(t.op, ast.Or) and not pol):
+                for v in t.values:
+                    add(v, pol)
+            else:
+                # a conjunction known false / a disjunction known true: at least one operand is false / true
+                lits = [literal(v, pol) for v in t.values]
+                if all(l is not None for l in lits):
+                    clauses.append(lits)
+            return
+        if isinstance(t, ast.Compare) and len(t.ops) == 2 and pol:
+            # a <= b <= c known true: both halves
+            add(ast.Compare(left=t.left, ops=[t.ops[0]], comparators=[t.comparators[0]]), True)
+            add(ast.Compare(left=t.comparators[0], ops=[t.ops[1]], comparators=[t.comparators[1]]), True)
+        lit = literal(t, pol)
+        if lit is not None:
+            out.add(lit)
+    for t, pol in path_conditions(fi, node):
+        add(t, pol)
+    # unit resolution: a clause all of whose literals but one are known to fail gives the last one
+    changed = True
+    while changed:
+        changed = False
+        for cl in clauses:
+            open_ = [l for l in cl if (l[0], not l[1]) not in out]
+            if len(open_) == 1 and open_[0] not in out:
+                out.add(open_[0])
+                changed = True
+    return out
+
+
+# --------------------------------------------------------------------------- small symbolic dictionaries
+
+class _SubstNames(ast.NodeTransformer):
+    def __init__(self, mapping: dict[str, ast.AST]):
+        self.mapping = mapping
+
+    def visit_Name(self, node: ast.Name):
+        import copy
+        if isinstance(node.ctx, ast.Load) and node.id in self.mapping:
+            return copy.deepcopy(self.mapping[node.id])
+        return node
+
+
+def _fold(e: ast.AST) -> ast.AST:
+    """getattr(x, 'name') -> x.name; comparisons between two enum members / constants -> True / False;
+    `False or c` -> c; `True or c` -> True; `True and c` -> c; `False and c` -> False."""
+    class F(ast.NodeTransformer):
+        def visit_Call(self, node):
+            self.generic_visit(node)
+            if isinstance(node.func, ast.Name) and node.func.id == 'getattr' and len(node.args) == 2 and not node.keywords \
+                    and isinstance(node.args[1], ast.Constant) and isinstance(node.args[1].value, str):
+                return ast.copy_location(ast.Attribute(value=node.args[0], attr=node.args[1].value, ctx=ast.Load()), node)
+            return node
+
+        def visit_Compare(self, node):
+            self.generic_visit(node)
+            if len(node.ops) == 1 and isinstance(node.ops[0], (ast.Is, ast.IsNot, ast.Eq, ast.NotEq)):
+                a, b = node.left, node.comparators[0]
+
+                def member(x):
+                    d = dotted(x)
+                    return d if d and d[0].isupper() and '.' in d else (repr(x.value) if isinstance(x, ast.Constant) else None)
+                ma, mb = member(a), member(b)
+                if ma is not None and mb is not None:
+                    same = ma == mb
+                    val = same if isinstance(node.ops[0], (ast.Is, ast.Eq)) else not same
+                    return ast.copy_location(ast.Constant(value=val), node)
+            return node
+
+        def visit_BoolOp(self, node):
+            self.generic_visit(node)
+            is_or = isinstance(node.op, ast.Or)
+            vals = []
+            for v in node.values:
+                if isinstance(v, ast.Constant) and isinstance(v.value, bool):
+                    if v.value is is_or:
+                        return ast.copy_location(ast.Constant(value=is_or), node)
+                    continue
+                vals.append(v)
+            if not vals:
+                return ast.copy_location(ast.Constant(value=not is_or), node)
+            if len(vals) == 1:
+                return vals[0]
+            node.values = vals
+            return node
+    import copy
+    return ast.fix_missing_locations(F().visit(copy.deepcopy(e)))
+
+
+def simple_aliases(fi: FuncInfo) -> dict[str, ast.AST]:
+    """Locals assigned exactly once to an attribute chain / name / subscript (`topology = self.topology`)."""
+    count: dict[str, int] = {}
+    value: dict[str, ast.AST] = {}
+    for n in ast.walk(fi.node):
+        if isinstance(n, ast.Name) and isinstance(n.ctx, (ast.Store, ast.Del)):
+            count[n.id] = count.get(n.id, 0) + 1
+        elif isinstance(n, ast.arg):
+            count[n.arg] = count.get(n.arg, 0) + 1
+    for n in walk_no_nested(fi.node):
+        if isinstance(n, ast.Assign) and len(n.targets) == 1 and isinstance(n.targets[0], ast.Name) and count.get(n.targets[0].id) == 1 \
+                and isinstance(n.value, (ast.Attribute, ast.Name)) and dotted(n.value):
+            value[n.targets[0].id] = n.value
+    # chains
+    for _ in range(3):
+        for k, v in list(value.items()):
+            value[k] = _SubstNames({a: b for a, b in value.items() if a != k}).visit(__import__('copy').deepcopy(v))
+    return value
+
+
+def spell_out(fi: FuncInfo, e: ast.AST) -> ast.AST:
+    import copy
+    return _SubstNames(simple_aliases(fi)).visit(copy.deepcopy(e))
+
+
+def symbolic_dict(ctx: Context, fi: FuncInfo, expr: ast.AST, depth: int = 3) -> Optional[list[tuple[str, ast.AST, frozenset]]]:
+    out = _symbolic_dict(ctx, fi, expr, depth)
+    if out is None:
+        return None
+    res = []
+    for k, v, c in out:
+        conds = set()
+        for t, pol in c:
+            try:
+                conds.add((norm_text(spell_out(fi, ast.parse(t, mode='eval').body)), pol))
+            except SyntaxError:
+                conds.add((t, pol))
+        res.append((k, spell_out(fi, v), frozenset(conds)))
+    return res
+
+
+def _symbolic_dict(ctx: Context, fi: FuncInfo, expr: ast.AST, depth: int = 3) -> Optional[list[tuple[str, ast.AST, frozenset]]]:
+    """The entries [(key text, value expression, conditions under which the entry is present)] of a dictionary that a
+    function builds from literals: a display, `d[k] = v` statements (with the path conditions of each), a comprehension
+    over the items of such a dictionary (a local or a class level table), with `getattr(x, 'name')` read as `x.name`.
+    None when the construction is anything else."""
+    if depth <= 0:
+        return None
+    flow = ctx.flow(fi)
+    e = expr
+    if isinstance(e, ast.Dict):
+        if any(k is None for k in e.keys):
+            return None
+        return [(norm_text(k), v, frozenset()) for k, v in zip(e.keys, e.values)]
+    if isinstance(e, ast.Name):
+        defs = flow.defs_of(e)
+        base = [d for d in defs if d.kind == 'assign' and d.value is not None]
+        if len(base) != 1 or len(defs) != 1:
+            return None
+        entries = _symbolic_dict(ctx, fi, base[0].value, depth)
+        if entries is None:
+            return None
+        entries = list(entries)
+        for n in walk_no_nested(fi.node):
+            if isinstance(n, ast.Assign) and len(n.targets) == 1 and isinstance(n.targets[0], ast.Subscript) \
+                    and isinstance(n.targets[0].value, ast.Name) and n.targets[0].value.id == e.id:
+                entries.append((norm_text(n.targets[0].slice), n.value, frozenset(facts(ctx, fi, n))))
+        return entries
+    if isinstance(e, ast.Attribute) and isinstance(e.value, ast.Name) and e.value.id in ('self', 'cls') and fi.cls is not None:
+        for c in ctx.p.mro(fi.cls):
+            if e.attr in c.attrs and isinstance(c.attrs[e.attr], ast.Dict):
+                d = c.attrs[e.attr]
+                if any(k is None for k in d.keys):
+                    return None
+                return [(norm_text(k), v, frozenset()) for k, v in zip(d.keys, d.values)]
+        return None
+    if isinstance(e, ast.DictComp) and len(e.generators) == 1:
+        g = e.generators[0]
+        it = g.iter
+        src = None
+        pair = False
+        if isinstance(it, ast.Call) and isinstance(it.func, ast.Attribute) and it.func.attr == 'items' and not it.args:
+            src, pair = it.func.value, True
+        else:
+            src = it
+        entries = _symbolic_dict(ctx, fi, src, depth - 1)
+        if entries is None:
+            return None
+        out = []
+        for ktxt, val, cond in entries:
+            kast = ast.parse(ktxt, mode='eval').body
+            if pair and isinstance(g.target, ast.Tuple) and len(g.target.elts) == 2 and all(isinstance(x, ast.Name) for x in g.target.elts):
+                mapping = {g.target.elts[0].id: kast, g.target.elts[1].id: val}
+            elif not pair and isinstance(g.target, ast.Name):
+                mapping = {g.target.id: kast}
+            else:
+                return None
+            import copy
+            key = _fold(_SubstNames(mapping).visit(copy.deepcopy(e.key)))
+            value = _fold(_SubstNames(mapping).visit(copy.deepcopy(e.value)))
+            conds = set(cond)
+            drop = False
+            for f_ in g.ifs:
+                t = _fold(_SubstNames(mapping).visit(copy.deepcopy(f_)))
+                if isinstance(t, ast.Constant) and isinstance(t.value, bool):
+                    if not t.value:
+                        drop = True
+                    continue
+                try:
+                    t = expand_locals(flow, t)
+                except Exception:
+                    pass
+                conds.add((norm_text(t), True))
+            if not drop:
+                out.append((norm_text(key), value, frozenset(conds)))
+        return out
+    return None
